@@ -81,7 +81,7 @@ func hessianSerial(dst *mat.SymDense, f func(x []float64) float64, x []float64, 
 	fo := func() float64 {
 		// Copy x in case it is modified during the call.
 		copy(xCopy, x)
-		return f(x)
+		return f(xCopy)
 	}
 	is2 := 1 / (step * step)
 	origin := getOrigin(originKnown, originValue, fo, stencil)
